@@ -29,6 +29,8 @@ def tok_excludes(t, c):
     # decimal tokens consist of [0-9-]; debug/display tokens are unknown
     if t.kind == 'dec':
         return not (48 <= c <= 57 or c == 45)
+    if t.kind == 'float':
+        return c not in b'0123456789.-+eEinfNa'
     return False
 
 
@@ -461,7 +463,7 @@ def _(eng, ci, a, sp):
         for x in items:
             if isinstance(x, Tok) and x.kind == 'float':
                 if len(items) == 1:
-                    return ok(x.val)
+                    return ok(Opaque('f64', x.val))
         try:
             return ok(float(bytes(items).decode()))
         except Exception:
@@ -510,7 +512,7 @@ def _(eng, ci, a, sp):
     return r if ci.method == 'get_unchecked' else some(r)
 
 
-@S('char::is_whitespace', 'char::is_ascii_whitespace')
+@S('char::is_whitespace', 'char::is_ascii_whitespace', 'impl_char::is_whitespace', 'impl_char::is_ascii_whitespace')
 def _(eng, ci, a, sp):
     c = a[0]
     if isinstance(c, int):
@@ -521,7 +523,7 @@ def _(eng, ci, a, sp):
     return r
 
 
-@S('char::is_ascii_digit', 'u8::is_ascii_digit')
+@S('char::is_ascii_digit', 'u8::is_ascii_digit', 'impl_char::is_ascii_digit', 'impl_u8::is_ascii_digit')
 def _(eng, ci, a, sp):
     c = deref_all(a[0])
     if isinstance(c, int):
@@ -529,7 +531,7 @@ def _(eng, ci, a, sp):
     return z3.And(z3.UGE(c, z3.BitVecVal(48, c.size())), z3.ULE(c, z3.BitVecVal(57, c.size())))
 
 
-@S('char::len_utf8')
+@S('char::len_utf8', 'impl_char::len_utf8')
 def _(eng, ci, a, sp):
     c = a[0]
     if isinstance(c, int):
